@@ -144,3 +144,36 @@ pub(crate) fn freq_in_band(c: &mut Configuration, f: u32) -> bool {
 pub(crate) fn rd_channel_info(c: &mut Configuration, i: usize) -> (bool, u32, u32, bool) {
     on_state!(&mut c.state, p, rd::channel_info(p, i), { let _ = p; (false, 0, 0, false) })
 }
+
+pub(crate) fn num_join(c: &mut Configuration) -> usize {
+    on_state!(&mut c.state, p, rd::num_join(p), { let _ = p; 0 })
+}
+
+/// Is `freq` the uplink frequency of one of the region's join channels (dynamic plans: the
+/// first NUM_JOIN_CHANNELS slots), with `rx1` its paired RX1 frequency?
+pub(crate) fn join_channel_legal(c: &mut Configuration, freq: u32, rx1: u32) -> bool {
+    on_state!(&mut c.state, p,
+        {
+            let mut ok = false;
+            let mut k = 0;
+            while k < 3 {
+                let (present, ul, dl, _) = rd::channel_info(p, k);
+                if k < rd::num_join(p) && present && ul == freq && dl == rx1 {
+                    ok = true;
+                }
+                k += 1;
+            }
+            ok
+        },
+        {
+            let mut ok = false;
+            let mut k = 0;
+            while k < 72 {
+                if rf::ul_freq(p, k) == freq && rf::dl_freq(p, k) == rx1 {
+                    ok = true;
+                }
+                k += 1;
+            }
+            ok
+        })
+}
